@@ -44,6 +44,31 @@ fn one(src: &str, stream: &str) -> Option<Case> {
     };
     let before = syntax::pre_model(&pm);
     let mut c = Case::default();
+    // contract of `Display for Primitive::Number` (NumTokenOk): the printed text is Rust's f64 Display and reads back
+    // as the very same f64
+    let mut nums: Vec<f64> = vec![];
+    number_literals(&pm, &mut nums);
+    for v in &nums {
+        if !v.is_finite() { continue; }
+        let shown = rooc::Primitive::Number(*v).to_string();
+        let is_lit = {
+            let mut parts = shown.splitn(2, '.');
+            let a = parts.next().unwrap_or("");
+            let b = parts.next();
+            !a.is_empty() && a.chars().all(|c| c.is_ascii_digit()) && b.map(|b| !b.is_empty() && b.chars().all(|c| c.is_ascii_digit())).unwrap_or(true)
+        };
+        // how the grammar reads the text back: `integer` through i64, `float` through f64
+        let back: Option<f64> = if !is_lit { None } else if shown.contains('.') { shown.parse::<f64>().ok() } else { shown.parse::<i64>().ok().map(|i| i as f64) };
+        if back.map(|b| b.to_bits()) != Some(v.to_bits()) && *v >= 0.0 {
+            let overflow = is_lit && !shown.contains('.') && shown.parse::<i64>().is_err();
+            c.impl_violation = Some(format!("Display for Primitive::Number does not read back as the same number: {:?} is printed `{}` (read back: {:?})", v, shown, back));
+            c.sig = Some(if overflow { "integral-float-beyond-i64-printed-as-integer".into() } else { "number-display-changes-value".into() });
+            break;
+        }
+    }
+    if nums.iter().any(|v| { let t = v.to_string(); t.len() >= 12 }) { c.tags.push("long-number-literal".into()); }
+    if nums.iter().any(|v| *v != 0.0 && v.abs() < 1e-8) { c.tags.push("tiny-number-literal".into()); }
+    if nums.iter().any(|v| v.abs() >= 1e9) { c.tags.push("large-number-literal".into()); }
     c.req = format!("format {}", before);
     c.imp = format!("(ok {})", sx::q(&f1));
     c.show = src.to_string();
@@ -98,6 +123,36 @@ fn round_trips(e: &rooc::PreExp) -> bool {
         BlockFunction(b) => b.exps.iter().all(round_trips),
         BlockScopedFunction(b) => round_trips(&b.exp),
         _ => true,
+    }
+}
+
+fn numbers_of(e: &rooc::PreExp, out: &mut Vec<f64>) {
+    use rooc::PreExp::*;
+    match e {
+        Primitive(p) => { if let rooc::Primitive::Number(v) = p.value() { out.push(*v) } }
+        BinaryOperation(_, l, r) => { numbers_of(l, out); numbers_of(r, out) }
+        UnaryOperation(_, x) => numbers_of(x, out),
+        FunctionCall(_, f) => f.args.iter().for_each(|a| numbers_of(a, out)),
+        BlockFunction(b) => b.exps.iter().for_each(|a| numbers_of(a, out)),
+        BlockScopedFunction(b) => { b.iters.iter().for_each(|i| numbers_of(i.iterator.value(), out)); numbers_of(&b.exp, out) }
+        CompoundVariable(c) => c.indexes.iter().for_each(|a| numbers_of(a, out)),
+        ArrayAccess(a) => a.accesses.iter().for_each(|a| numbers_of(a, out)),
+        Variable(_) => {}
+    }
+}
+/// every `Primitive::Number` literal of a parsed program (objective, constraints, constants, domain bounds, iterators)
+fn number_literals(pm: &rooc::pre_model::PreModel, out: &mut Vec<f64>) {
+    use rooc::math_enums::PreVariableType as V;
+    numbers_of(&pm.objective().rhs, out);
+    for k in pm.constraints() { numbers_of(&k.lhs, out); numbers_of(&k.rhs, out); k.iteration.iter().for_each(|i| numbers_of(i.iterator.value(), out)); }
+    for k in pm.constants() { numbers_of(&k.value, out); }
+    for d in pm.domains() {
+        match d.get_type() {
+            V::Boolean => {}
+            V::NonNegativeReal(a, b) | V::Real(a, b) => { if let Some(a) = a { numbers_of(a, out) } if let Some(b) = b { numbers_of(b, out) } }
+            V::IntegerRange(a, b) => { numbers_of(a, out); numbers_of(b, out) }
+        }
+        d.iteration().iter().for_each(|i| numbers_of(i.iterator.value(), out));
     }
 }
 
@@ -196,6 +251,20 @@ pub fn generate(seed: u64, n: usize, thorough: bool, corpus: Option<&str>) -> Ve
     }
     for e in un {
         push(program(&format!("min {}", e), &[format!("{} >= 0", e)], &vars, "Real"), "unary-implicit", &mut cases);
+    }
+
+    // --- number literals with more precision than a "pretty" printer keeps: long mantissas, tiny and large values written in
+    //     full decimals, as coefficients (explicit and implicit), right-hand sides, `where` constants, array entries and
+    //     domain bounds; the compiled models of s and format(s) are compared bit for bit
+    let lits = ["3.141592653589793", "2.718281828459045", "0.1234567890123456", "0.30000000000000004", "1.0000000000000002",
+                "0.0000000000004", "0.000000000123", "0.00000000000001", "0.000000001", "123456789012.3456", "98765432109876.5",
+                "4503599627370497.5", "0.1", "2.50", "1.0", "100000000000000000000.0", "0.000001", "12.000000000001"];
+    for (i, l) in lits.iter().enumerate() {
+        let l2 = lits[(i + 5) % lits.len()];
+        push(program(&format!("min {}x + {} * y - y / {}", l, l2, l), &[format!("{}x + y >= {}", l2, l), format!("x - {} <= y * {}", l, l2)], &["x", "y"], "Real"), "number-literals", &mut cases);
+        push(format!("max p * x + a[0] * y + a[1]\ns.t.\n    x + q * y <= a[1]\nwhere\n    let p = {}\n    let q = {} * 2\n    let a = [{}, {}]\ndefine\n    x as Real({}, {})\n    y as NonNegativeReal(0, {})\n",
+            l, l2, l, l2, l, "123456789012.3456", l2), "number-literals", &mut cases);
+        push(format!("min sum(i in 0..2) {{ {} * x_i }}\ns.t.\n    x_0 >= {}\n    x_1 >= -{}\ndefine\n    x_i as Real(-{}, {}) for i in 0..2\n", l, l2, l, l2, "98765432109876.5"), "number-literals", &mut cases);
     }
 
     // --- objectives, comparisons, names, assertions
